@@ -14,6 +14,7 @@ from __future__ import annotations
 
 import importlib
 import json
+import re
 import sys
 import tempfile
 import textwrap
@@ -315,6 +316,10 @@ def classify(edit, cur, verdict):
                 return "move:%s-in-moved-block:gap-path-shifted-above-the-moved-blocks-list" % ck
         else:
             _, p, a, lo, hi = cur
+            deeper = is_prefix(edit["bp"], p) and len(p) > len(edit["bp"]) and p[len(edit["bp"])][0] == edit["a"] \
+                and edit["lo"] <= p[len(edit["bp"])][1] < edit["hi"]
+            if deeper and move_bug_condition(edit["bp"], edit["a"], edit["lo"], gp):
+                return "move:block-in-moved-block:gap-path-shifted-above-the-moved-blocks-list"
             same = p == edit["bp"] and a == edit["a"]
             inter = same and max(lo, edit["lo"]) < min(hi, edit["hi"])
             inside = inter and edit["lo"] <= lo and hi <= edit["hi"]
@@ -385,7 +390,8 @@ class ProcFactory:
         mod = "c06_scratch_%d" % self.n
         text = HEADER
         for i, s in enumerate(sources):
-            text += "\ntry:\n" + textwrap.indent(s, "    ") + "\n    R%d = p%d\nexcept Exception as e:\n    R%d = e\n" % (i, i, i)
+            name = re.search(r"^def (\w+)", s, re.M).group(1)
+            text += "\ntry:\n" + textwrap.indent(s, "    ") + "\n    R%d = %s\nexcept Exception as e:\n    R%d = e\n" % (i, name, i)
         (self.tmp / (mod + ".py")).write_text(text)
         importlib.invalidate_caches()
         m = importlib.import_module(mod)
@@ -421,6 +427,29 @@ def all_blocks(t, allow_empty=False):
 
 def gap_path_of(anchor, ty):
     return anchor[:-1] + [[anchor[-1][0], anchor[-1][1] + (1 if ty == 1 else 0)]]
+
+
+class Draws:
+    """random choices that are logged (and can be replayed from the log)"""
+
+    def __init__(self, rng=None, recorded=None):
+        self.rng = rng
+        self.rec = list(recorded) if recorded is not None else None
+        self.log = []
+
+    def _next(self, gen):
+        v = self.rec.pop(0) if self.rec is not None else gen()
+        self.log.append(v)
+        return v
+
+    def randint(self, a, b):
+        return self._next(lambda: self.rng.randint(a, b))
+
+    def random(self):
+        return self._next(lambda: self.rng.random())
+
+    def choice(self, seq):
+        return seq[self._next(lambda: self.rng.randrange(len(seq)))]
 
 
 class AtomicCase:
@@ -603,6 +632,29 @@ def property_on_atomic(ctx, env, old_tree, new_tree, params, cursors, results, r
                           dict(replay, cursor=cur, forwarded=res, verdict=v, detail=detail, edit=params))
 
 
+def atomic_case(ctx, env, root, tree, cursors, src, kind, draws, pending):
+    ac = AtomicCase(env, root, tree, draws)
+    built = ac.build(kind)
+    if built is None:
+        return None
+    ej, params, thunk = built
+    replay = {"stream": "A", "source": src, "kind": kind, "draws": list(draws.log), "edit": params}
+    try:
+        ir2, fwd = thunk()
+    except Exception as e:  # noqa
+        ctx.count("A_real_edit_raised:%s:%s" % (kind, type(e).__name__))
+        ctx.violation("A:%s:real-edit-raised:%s" % (kind, type(e).__name__),
+                      "real %s raised %s on a valid location" % (kind, type(e).__name__), replay)
+        return None
+    new_tree = env.to_tree(ir2)
+    real_cursors = [env.icursor(root, c) for c in cursors]
+    results = [env.run_fwd(fwd, rc)[0] for rc in real_cursors]
+    pending.append({"request": {"tree": tree, "edit": ej, "cursors": cursors}, "real_tree": new_tree,
+                    "real_fwd": results, "replay": replay, "params": params})
+    property_on_atomic(ctx, env, tree, new_tree, params, cursors, results, replay, "A")
+    return new_tree, results
+
+
 def stream_atomic(ctx, env, fac):
     rng = ctx.rng
     n_procs = ctx.scale(60, 400)
@@ -625,27 +677,9 @@ def stream_atomic(ctx, env, fac):
                 cursors = [c for c in cursors if c[0] != "b"] + rng.sample([c for c in cursors if c[0] == "b"], 150)
             for kind in EDIT_KINDS:
                 for _ in range(edits_per_kind):
-                    ac = AtomicCase(env, root, tree, rng)
-                    built = ac.build(kind)
-                    if built is None:
-                        continue
-                    ej, params, thunk = built
-                    replay = {"stream": "A", "source": src, "edit": params}
-                    try:
-                        ir2, fwd = thunk()
-                    except Exception as e:  # noqa
-                        ctx.count("A_real_edit_raised:%s:%s" % (kind, type(e).__name__))
-                        ctx.violation("A:%s:real-edit-raised:%s" % (kind, type(e).__name__),
-                                      "real %s raised %s on a valid location" % (kind, type(e).__name__), replay)
-                        continue
-                    new_tree = env.to_tree(ir2)
-                    real_cursors = [env.icursor(root, c) for c in cursors]
-                    results = [env.run_fwd(fwd, rc)[0] for rc in real_cursors]
-                    pending.append({"request": {"tree": tree, "edit": ej, "cursors": cursors}, "real_tree": new_tree,
-                                    "real_fwd": results, "replay": replay, "params": params})
-                    property_on_atomic(ctx, env, tree, new_tree, params, cursors, results, replay, "A")
+                    atomic_case(ctx, env, root, tree, cursors, src, kind, Draws(rng), pending)
             ctx.sample({"stream": "A", "source": src, "cursors": len(cursors)}, limit=2)
-        if len(pending) >= 400:
+        if len(pending) >= 2500:
             compare_with_model(ctx, pending, "A")
             pending = []
     compare_with_model(ctx, pending, "A")
@@ -758,10 +792,29 @@ def scenarios(rng):
     sc.append(("parallelize_loop", "for i in seq(0, n):  #@L\n    x[i] = 1.0  #@s1\n", [("parallelize_loop", [S_("L")], {})]))
     sc.append(("divide_with_recompute", "for i in seq(0, 16):  #@L\n    u[i] = 1.0  #@s1\n    v[i] = 2.0  #@s2\n", [("divide_with_recompute", [S_("L"), "4", 4, ["io", "ii"]], {})]))
     sc.append(("lift_reduce_constant", "t: f32  #@A\nt = 0.0  #@s0\nfor i in seq(0, 16):  #@L\n    t += a * u[i]  #@s1\nv[0] = t  #@s2\n", [("lift_reduce_constant", [B_("s0", "L")], {})]))
-    sc.append(("divide+fission+reorder", nest, [("divide_loop", [S_("M"), 2, ["jo", "ji"]], {"perfect": True}), ("fission", [G_("s1", 1)], {"n_lifts": 2}), ("reorder_loops", [S_("L")], {})]))
+    sc.append(("divide+fission+reorder", nest, [("divide_loop", [S_("M"), 2, ["jo", "ji"]], {"perfect": True}), ("fission", [G_("s1", 1)], {"n_lifts": 3}), ("reorder_loops", [S_("L")], {})]))
     sc.append(("fission+remove_loop", "for q in seq(0, 4):  #@L\n    u[0] = 1.0  #@s1\n    for i in seq(0, 16):  #@M\n        v[i] = 2.0  #@s2\n", [("fission", [G_("s1", 1)], {}), ("remove_loop", [S_("L")], {})]))
-    sc.append(("specialize+divide", three, [("specialize", [S_("L"), ["n > 4"]], {}), ("divide_loop", [S_("L"), 2, ["io", "ii"]], {"tail": "cut"})]))
+    sc.append(("specialize+divide", three, [("specialize", [S_("s2"), ["n > 4"]], {}), ("divide_loop", [S_("L"), 2, ["io", "ii"]], {"tail": "cut"})]))
     return sc
+
+
+SPEC_TAGS = ("s", "b", "body", "orelse", "g", "rhs", "proc", "rawgap")
+
+
+def enc_arg(a):
+    if isinstance(a, tuple):
+        return {"spec": [enc_arg(x) for x in a]}
+    if isinstance(a, list):
+        return [enc_arg(x) for x in a]
+    return a
+
+
+def dec_arg(a):
+    if isinstance(a, dict) and "spec" in a:
+        return tuple(dec_arg(x) for x in a["spec"])
+    if isinstance(a, list):
+        return [dec_arg(x) for x in a]
+    return a
 
 
 def embed(rng, focus):
@@ -1003,7 +1056,7 @@ def build_arg(env, spec, p0, root, marks, module):
     if isinstance(spec, list):
         return [build_arg(env, s, p0, root, marks, module) for s in spec]
     if spec == "DRAM_STATIC":
-        from exo.core.memory import DRAM_STATIC
+        from exo.libs.memories import DRAM_STATIC
         return DRAM_STATIC
     return spec
 
@@ -1087,6 +1140,27 @@ def attribute(env, tracer, p0, pN, pub, what_op):
     return "%s:composition" % what_op, {"steps": [tracer.steps[i]["kind"] for i, _, _ in tracer.calls]}
 
 
+def load_x_module(fac, sources):
+    """module text: SUBPROCS first; marks are found by line number"""
+    fac.n += 1
+    mod = "c06_x_%d" % fac.n
+    text = HEADER + SUBPROCS
+    marks_by_line = []
+    for k, s in enumerate(sources):
+        name = re.search(r"^def (\w+)", s, re.M).group(1)
+        text += "\ntry:\n"
+        start = text.count("\n") + 1
+        ml = {}
+        for j, line in enumerate(textwrap.indent(s, "    ").split("\n")):
+            if "#@" in line:
+                ml[start + j] = line.split("#@")[1].strip()
+        marks_by_line.append(ml)
+        text += textwrap.indent(s, "    ") + "\n    R%d = %s\nexcept Exception as e:\n    R%d = e\n" % (k, name, k)
+    (fac.tmp / (mod + ".py")).write_text(text)
+    importlib.invalidate_caches()
+    return importlib.import_module(mod), marks_by_line
+
+
 def stream_primitives(ctx, env, fac, tracer):
     rng = ctx.rng
     rounds = ctx.scale(2, 10)
@@ -1099,36 +1173,20 @@ def stream_primitives(ctx, env, fac, tracer):
             src = "@proc\ndef p%d%s:\n" % (k, XSIG) + "\n".join(body)
             sources.append(src)
             metas.append((name, ops))
-        # module text: SUBPROCS first; marks are found by line number
-        fac.n += 1
-        mod = "c06_x_%d" % fac.n
-        text = HEADER + SUBPROCS
-        marks_by_line = []
-        for k, s in enumerate(sources):
-            text += "\ntry:\n"
-            start = text.count("\n") + 1
-            ml = {}
-            for j, line in enumerate(textwrap.indent(s, "    ").split("\n")):
-                if "#@" in line:
-                    ml[start + j] = line.split("#@")[1].strip()
-            marks_by_line.append(ml)
-            text += textwrap.indent(s, "    ") + "\n    R%d = p%d\nexcept Exception as e:\n    R%d = e\n" % (k, k, k)
-        (fac.tmp / (mod + ".py")).write_text(text)
-        importlib.invalidate_caches()
-        module = importlib.import_module(mod)
+        module, marks_by_line = load_x_module(fac, sources)
         for k, ((name, ops), src) in enumerate(zip(metas, sources)):
             p0 = getattr(module, "R%d" % k)
             if isinstance(p0, Exception):
                 ctx.count("X_frontend_rejected:%s:%s" % (name, type(p0).__name__))
                 continue
             x_case(ctx, env, tracer, module, name, ops, src, p0, marks_by_line[k], pending)
-        if len(pending) >= 300:
+        if len(pending) >= 2500:
             compare_with_model(ctx, pending, "P")
             pending.clear()
     compare_with_model(ctx, pending, "P")
 
 
-def x_case(ctx, env, tracer, module, name, ops, src, p0, marks_by_line, pending):
+def x_case(ctx, env, tracer, module, name, ops, src, p0, marks_by_line, pending, fixed_prefix=False):
     rng = ctx.rng
     root = p0.INTERNAL_proc()
     LIN.reset()
@@ -1140,10 +1198,12 @@ def x_case(ctx, env, tracer, module, name, ops, src, p0, marks_by_line, pending)
         cursors = [c for c in cursors if c[0] != "b"] + rng.sample([c for c in cursors if c[0] == "b"], 250)
     # a stale-making prefix step for the implicit == explicit comparison
     prefix_gap = None
-    if rng.random() < 0.6:
+    if fixed_prefix is not False:
+        prefix_gap = fixed_prefix
+    elif rng.random() < 0.6:
         prefix_gap = rng.choice([c for c in cursors if c[0] == "g"])
     opnames = "+".join(o for o, _, _ in ops)
-    replay = {"stream": "X", "scenario": name, "source": src, "ops": [[o, repr(a), kw] for o, a, kw in ops],
+    replay = {"stream": "X", "scenario": name, "source": src, "ops": [[o, enc_arg(a), kw] for o, a, kw in ops],
               "marks": marks, "prefix_insert_pass_at": prefix_gap, "subprocs": SUBPROCS}
     tracer.steps = []
     tracer.recording = True
@@ -1218,6 +1278,44 @@ def cursor_desc(tree, c):
     return {"cursor": c, "label": (tget(tree, c[1]) or [None])[0]}
 
 
+# ============================================================================ replay
+def replay_case(ctx, env, fac, doc):
+    """re-run exactly the case stored in a replay file and print what happens"""
+    rep = doc["replay"]
+    print("replaying %s (%s)" % (doc.get("key"), doc.get("what")))
+    pending = []
+    if rep.get("stream") == "A":
+        pr, = fac.load([rep["source"]])
+        if isinstance(pr, Exception):
+            raise InfraError("replay: front end rejected the source: %r" % pr)
+        root = pr.INTERNAL_proc()
+        LIN.reset()
+        env.label_tree(root)
+        tree = env.to_tree(root)
+        cursors = all_cursors(tree)
+        out = atomic_case(ctx, env, root, tree, cursors, rep["source"], rep["kind"], Draws(None, rep["draws"]), pending)
+        compare_with_model(ctx, pending, "A")
+        if out is not None and "cursor" in rep:
+            new_tree, results = out
+            res = results[cursors.index(rep["cursor"])]
+            print("  cursor %s -> %s   verdict %s" % (rep["cursor"], res, check_forward(tree, new_tree, rep["cursor"], res)[0]))
+    elif rep.get("stream") == "X":
+        module, mbl = load_x_module(fac, [rep["source"]])
+        p0 = module.R0
+        if isinstance(p0, Exception):
+            raise InfraError("replay: front end rejected the source: %r" % p0)
+        ops = [(o, dec_arg(a), kw) for o, a, kw in rep["ops"]]
+        tracer = Tracer(env)
+        x_case(ctx, env, tracer, module, rep["scenario"], ops, rep["source"], p0, mbl[0], pending,
+               fixed_prefix=rep.get("prefix_insert_pass_at"))
+        compare_with_model(ctx, pending, "P")
+    else:
+        raise InfraError("replay: nothing to re-run for this entry (%s)" % doc.get("key"))
+    for k, v in sorted(ctx.counts.items()):
+        if k.startswith(("Skey:", "Xkey:", "X_", "S_")):
+            print("  %s: %d" % (k, v))
+
+
 # ============================================================================ run
 def run(ctx):
     exo = import_exo()
@@ -1233,12 +1331,24 @@ def run(ctx):
     ]
     ctx.trusted += ["harness/props/c06.py lineage tracker and tree exporter", "Drivers/C06.lean JSON glue"]
 
+    import time
+    t0 = time.time()
     broken = ctx.lean_obligations(["ExoModel.Props.C06"])
     for b in broken:
         ctx.violation("obligation:" + b, "proof obligation broken: " + b, {"obligation": b}, no_input=True)
+    ctx.extra["phase_s"] = {"obligations": round(time.time() - t0, 1)}
+
+    if ctx.replay:
+        with tempfile.TemporaryDirectory(prefix="c06_") as tmp:
+            replay_case(ctx, env, ProcFactory(tmp), json.loads(Path(ctx.replay).read_text()))
+        return
 
     with tempfile.TemporaryDirectory(prefix="c06_") as tmp:
         fac = ProcFactory(tmp)
+        t0 = time.time()
         stream_atomic(ctx, env, fac)
+        ctx.extra["phase_s"]["atomic"] = round(time.time() - t0, 1)
+        t0 = time.time()
         tracer = Tracer(env)
         stream_primitives(ctx, env, fac, tracer)
+        ctx.extra["phase_s"]["primitives"] = round(time.time() - t0, 1)
